@@ -5,6 +5,7 @@ from fractions import Fraction as F
 import gen_cases as G
 import props_c18
 import props_c12b
+import props_c19
 
 VERIF = os.path.dirname(os.path.dirname(os.path.abspath(__file__)))
 
@@ -535,6 +536,7 @@ def gen_C16(seed, tier):
 CS_CLASSES = [  # (tag, loop classes, number of contact points)
     ("contact", [], 1), ("contact", [], 2), ("loopbase", ["base"], 0), ("loopball", ["ball"], 0),
     ("mixbase", ["base"], 1), ("loopd5a", ["d5a"], 0), ("loopd5b", ["d5b"], 0), ("mixball", ["ball"], 1),
+    ("loopd5c", ["d5c"], 0),
 ]
 CS_CLEAN = [c for c in CS_CLASSES if "d5" not in c[0]]
 
@@ -903,10 +905,17 @@ def gen_C07(seed, tier):
         fixed_frame, fixed_body = g.frame(), g.body()
         cases = []
         state = None
+        # payload: a body with mass attached by a fixed joint to an INTERMEDIATE (massless) body of the
+        # multi-DoF joint -- only the descriptions that have intermediate bodies take part
+        payload = None
+        if kind in ("EulerZYX", "EulerXYZ", "EulerYXZ", "EulerZXY", "TranslationXYZ", "FloatingBase") and g.r.random() < 0.5:
+            payload = (g.r.choice([1, 2]) if kind != "FloatingBase" else 1, g.frame(), g.body())
+            variants = [v for v in variants if v[0] != "builtin" or kind == "FloatingBase"]
+            g.stats["rewrite:payload-on-intermediate-body"] += 1
         for label, (spec, extra) in variants:
             mb = copy.deepcopy(pre)
             mb.g = g
-            nullb = G.frs(g.body(massless=True, virtual=True))
+            nullb = G.frs(g.body(massless=True, virtual=(payload is None)))
             if spec == "CHAIN":
                 p_ = parent
                 for k, a in enumerate(extra):
@@ -926,6 +935,9 @@ def gen_C07(seed, tier):
                 nb = 3 if spec.startswith("A 3") else (2 if spec == "T FloatingBase" else 1)
                 mb.n_movable += nb
                 fid = mb.n_movable - 1
+            if payload is not None:
+                mb.lines.append("add %d %s T Fixed %s -" % (fid - payload[0], G.frs(payload[1]), G.frs(payload[2])))
+                mb.n_fixed += 1
             # a child joint and a fixed body below the joint under test
             if child_js is None:
                 child_js = mb.jspec(child_kind)[0]
@@ -1356,18 +1368,31 @@ def custom_C20(seed, tier, ctx):
     # (b) dynamic: N threads x N private instances, and interleaved single-thread histories
     G.MODEL_EXE = ctx.get("exe_model")
     parts = []
-    t1 = gen_generic("c20dyn", seed, tier, 10, 40, lambda g, mb: ["call ID", "call FD", "call CRBA 1", "call NE", "call MINV 1", "call COM 1", "call LTL"], fext_prob=0.5)[0]
+    t1 = gen_generic("c20dyn", seed, tier, 10, 40, lambda g, mb: ["call ID", "call FD", "call CRBA 1", "call NE", "call MINV 1", "call COM 1", "call LTL",
+                                                                  "call FDL 0", "call FDL 1", "call FDL 3", "call KE 1", "call PE 1"], fext_prob=0.5)[0]
     t2 = gen_generic("c20kin", seed + 1, tier, 8, 30, calls_C06)[0]
     t3 = gen_C19(seed + 2, tier)[0]
     # only self-contained cases (skip twin directives), Lua temp files are per interpreter
     text = "\n".join(l for l in (t1 + t2 + t3).splitlines() if not l.startswith("#") and not l.startswith("@impl luarm")) + "\n"
     cs = gen_cs("c20cs", seed + 3, tier, 4, 12, calls_C08, CS_CLEAN)[0]
+    # same number of degrees of freedom, different topology, one after the other: a serial chain and a
+    # star of k revolute joints (a size-keyed static or thread-local scratch buffer survives between them)
+    gq = G.Gen(seed + 4)
+    fam = []
+    for k in (3, 4, 5):
+        for shape in ("chain", "star", "chain"):
+            mbq = G.ModelBuilder(gq)
+            for j in range(k):
+                mbq.add(0 if shape == "star" or j == 0 else mbq.n_movable - 1, gq.r.choice(["RevoluteX", "RevoluteY", "RevoluteZ", "Revolute"]))
+            fam += ["case c20%s%d_%d" % (shape, k, len(fam)), "gravity 1 -2 3"] + mbq.lines + mbq.state_lines() + \
+                   ["call FDL 0", "call FDL 1", "call FDL 2", "call FDL 3", "call CRBA 1", "call ID", "call FD", "call MINV 1", "call LTL"]
+    text += "\n".join(fam) + "\n"
     text += "\n".join(l for l in cs.splitlines() if not l.startswith("#")) + "\n"
     rounds = 3 if tier != "thorough" else 10
     r = subprocess.run([exe, str(rounds)], input=text, capture_output=True, text=True, timeout=1500)
     lines = r.stdout.splitlines()
     mism = [l for l in lines if l.startswith("MISMATCH")]
-    summ = [l for l in lines if l.startswith(("threads", "interleaved"))]
+    summ = [l for l in lines if l.startswith(("threads", "interleaved", "sequential"))]
     cov["thread_runs"] = summ
     ncases = sum(1 for l in text.splitlines() if l.startswith("case "))
     comparisons = 0
@@ -1470,11 +1495,11 @@ PROPS = {
             "rule": "twin models: Euler ZYX/XYZ/YXZ/ZXY and XYZ translation as built-in joint vs emulated 3-DoF joint vs chain of 1-DoF joints through massless bodies; floating base vs translation + spherical; RevoluteX as built-in / custom / axis / revolute; custom EulerZYX vs built-in; fixed body vs inertia merged beforehand (merged parameters from the exact model); sibling branches added in swapped order (coordinate permutation); each below a random prefix, with a child joint and a fixed body attached; compared on InverseDynamics, ForwardDynamics, CRBA, NonlinearEffects, CoM, energies, point position / velocity / acceleration, Jacobians, M^-1 tau",
             "explanation": "direct statement on the implementation (twin comparison) plus correspondence of every variant with the Lean model and its spec monitors",
             "assumptions": COMMON_ASSUMPTIONS},
-    "C19": {"gen": gen_C19, "harness": "driver_lua",
+    "C19": {"gen": props_c19.gen_C19, "harness": "driver_lua", "corr_is_property": True,
             "extra_srcs": lambda: [os.path.join(os.environ.get("VERIF_REPO", "/repo"), "addons/luamodel/luamodel.cc"),
                                    os.path.join(os.environ.get("VERIF_REPO", "/repo"), "addons/luamodel/luatables.cc")],
-            "rule": "random descriptions in the documented format (frames with 0-6 axis lists, the named 3-DoF joints and floating base, fixed frames as omitted / empty joint, joint_frame with r / E / both / omitted, body with optional com / inertia / omitted) printed to Lua text (numbers as exact quotients) and loaded by the real loader after 0-2 other loads in the same process; constraint sets with contact (normal / normal_sets) and loop (axis / axis_sets, stabilization) tables; a malformed stream with a parent name that only an earlier file defines; compared with the equivalent API calls executed by the Lean construction model: structural dump, all parameters, name lookups, constraint-set structure, dynamics",
-            "explanation": "correspondence: loader output = API model (exact structural comparison + numeric parameters + dynamics); the Lua interpreter itself is not modelled (descriptions enter as data)",
+            "rule": "random descriptions in the documented format drawn as data (frames with 0-6 axis lists incl. the written-out axis lists of the named joints, the named 3-DoF joints and floating base, fixed frames as omitted / empty joint, joint_frame with r / E / both / neither / omitted, body with optional com / inertia / omitted, unnamed frames, optional gravity); one canonical text (luadesc lines) goes to both sides: the C++ harness renders it to Lua text (numbers as exact quotients) and calls the real loader after 0-2 other loads in the same process, the Lean driver runs LuaLoad.load on the data; constraint sets with contact (normal / normal_sets, point optional) and loop (axis / axis_sets, optional transforms, stabilization) tables, names, ids, regrouping; a frame whose parent name only an earlier file defines; a stream outside the format (duplicate / ROOT names, missing parent, unknown type name, 7 axes, missing mass, missing / malformed constraint fields): error kind and what is left behind; compared: load result, structural dump, all parameters, name lookups, constraint-set contents (bodies, frames, axes, ids, stabilisation, row names), dynamics",
+            "explanation": "correspondence: loader output = formal loader model (exact structural comparison + numeric parameters + dynamics); theorems (RbdlProofs/Props/C19.lean): the formal loader equals issuing the translated construction calls, is history-free with the per-load name map (counterexample for the process-wide map), keeps the model well-formed, assigns ids in frame order, resolves names and parents, and builds constraint sets in table order; the Lua interpreter itself is not modelled (descriptions enter as data)",
             "assumptions": COMMON_ASSUMPTIONS + ["Lua 5.3 evaluates (p/q) to the correctly rounded double"]},
     "C20": {"gen": None, "custom": custom_C20, "level": "other",
             "rule": "N threads x N private instances (one interpreter with its own Model / ConstraintSet per case: dynamics, kinematics, constrained dynamics, Lua loads with private temporary files) run concurrently for several rounds and compared bit-for-bit with solo runs; neighbouring cases interleaved line by line on one thread; thorough tier: the same under ThreadSanitizer; distinct = number of cases (instances)",
